@@ -129,6 +129,70 @@ theorem split_remove_tiles_iff (len : Nat) : ∀ (ms : List (Nat × Nat)) (last 
             simp at this; omega
         · rintro ⟨hs, _⟩; exact absurd hs hl
 
+/-- `regex.split` pieces (`invert = false`): the gaps between ordered matches are ordered too. -/
+theorem gaps_ordered (len : Nat) : ∀ (ms : List (Nat × Nat)) (g last : Nat),
+    Ordered ms g len → last ≤ g → Ordered (gaps len ms g) last len := by
+  intro ms
+  induction ms with
+  | nil =>
+    intro g last h hl
+    simp only [Ordered] at h
+    simp only [gaps, Ordered]
+    exact ⟨hl, h, Nat.le_refl _⟩
+  | cons m ms ih =>
+    intro g last h hl
+    obtain ⟨s, e⟩ := m
+    simp only [Ordered] at h
+    simp only [gaps, Ordered]
+    exact ⟨hl, h.1, ih e s h.2.2 h.2.1⟩
+
+/-- **`Split` with `Isolate` is lossless for both values of `invert`.** -/
+theorem split_isolate_lossless (invert : Bool) (len : Nat) (ms : List (Nat × Nat))
+    (h : Ordered ms 0 len) : Tiles (split invert true len ms) 0 len := by
+  unfold split
+  split
+  · exact split_isolate_tiles len ms 0 h
+  · exact split_isolate_tiles len _ 0 (gaps_ordered len ms 0 0 h (Nat.le_refl _))
+
+/-- **`Split` with `Remove`**: lossless iff the chunk candidates (the matches for
+`invert = true`, the text between the matches for `invert = false`) cover the text. -/
+theorem split_remove_lossless_iff (invert : Bool) (len : Nat) (ms : List (Nat × Nat))
+    (h : Ordered ms 0 len) :
+    Tiles (split invert false len ms) 0 len ↔
+      noGaps (if invert then ms else gaps len ms 0) 0 len = true := by
+  unfold split
+  cases invert with
+  | true => simpa using split_remove_tiles_iff len ms 0 h
+  | false =>
+    simpa using split_remove_tiles_iff len _ 0 (gaps_ordered len ms 0 0 h (Nat.le_refl _))
+
+/-- Every chunk starts at a match start, a match end, or 0 — so on a char boundary whenever the
+regex matches do (chunks are `&str` slices in the code). -/
+theorem splitInvert_starts (iso : Bool) (len : Nat) : ∀ (ms : List (Nat × Nat)) (last : Nat),
+    ∀ c ∈ splitInvert iso len ms last, c.1 = last ∨ ∃ m ∈ ms, c.1 = m.1 ∨ c.1 = m.2 := by
+  intro ms
+  induction ms with
+  | nil =>
+    intro last c hc
+    simp only [splitInvert] at hc
+    split at hc
+    · simp at hc; left; rw [hc]
+    · simp at hc
+  | cons m ms ih =>
+    intro last c hc
+    obtain ⟨s, e⟩ := m
+    simp only [splitInvert, List.mem_append] at hc
+    rcases hc with (hc | hc) | hc
+    · split at hc
+      · simp at hc; left; rw [hc]
+      · simp at hc
+    · split at hc
+      · simp at hc; right; exact ⟨(s, e), by simp, Or.inl (by rw [hc])⟩
+      · simp at hc
+    · rcases ih e c hc with h | ⟨m, hm, h⟩
+      · right; exact ⟨(s, e), by simp, Or.inr h⟩
+      · right; exact ⟨m, List.mem_cons_of_mem _ hm, h⟩
+
 /-- End to end for `Split { invert: true, Remove }` (`Split::gpt2()`): if the regex matches cover
 the text, `decode(encode(text))` is the text (with `String::from_utf8` validation) for every
 vocabulary / merge list as in T2. -/
